@@ -131,7 +131,7 @@ def handle (st : St) : List Str → St × Str
       match rest with
       | [v] => ({ v2 := v = str "v2" }, str "ok")
       | _ => (st, str "bad-op")
-    else if op = str "src" then (st, str "ok")   -- source text: for the real loader only
+    else if op = str "src" || op = str "srcx" || op = str "testfiles" then (st, str "ok")   -- source text, loader options: for the real loader only
     else if op = str "node" then
       match rest with
       | id :: s :: nd =>
